@@ -5,4 +5,5 @@ Extraction Language OCaml.
 Extraction "Extract/m_remap.ml"
   Remap.matches Remap.print_out Remap.parse_out Remap.out_ok Remap.limit Remap.touches
   Remap.try_remap Remap.try_remap_scoped Remap.remap_in Remap.remap_note Remap.replace_base Remap.wf_note
-  Remap.has_base_field Remap.split_note Remap.meta_split GenRemap.remap_below_divider.
+  Remap.has_base_field Remap.split_note Remap.meta_split GenRemap.remap_below_divider
+  Remap.commit_meta Remap.commit_meta_gen Remap.header_meta GenRemap.meta_early_exit.
